@@ -67,10 +67,17 @@ def one(name, tier, tests, keep):
         if os.path.exists(demo):
             shutil.copy(demo, os.path.join(mut, "_demo.py"))
             shutil.copy(demo, os.path.join(ori, "_demo.py"))
+            helpers = [f for f in os.listdir(d) if f.endswith(".py") and f != "demo.py"]      # modules the demo imports
+            for f in helpers:
+                shutil.copy(os.path.join(d, f), os.path.join(mut, f))
+                shutil.copy(os.path.join(d, f), os.path.join(ori, f))
             res["demo_on_changed_rc"], res["demo_on_changed_out"] = run_demo(mut, "_demo.py")
             res["demo_on_unchanged_rc"], _ = run_demo(ori, "_demo.py")
             os.remove(os.path.join(mut, "_demo.py"))
             os.remove(os.path.join(ori, "_demo.py"))
+            for f in helpers:
+                os.remove(os.path.join(mut, f))
+                os.remove(os.path.join(ori, f))
         if tests:
             rc, out = sh([PY, "-m", "pytest", "-q", "-p", "no:cacheprovider", "pyorbital/tests"], cwd=mut, timeout=1800)
             m = re.search(r"(\d+) passed", out)
